@@ -1,5 +1,6 @@
 import Driver.Common
 import GoSSE.Gen.Root
+import GoSSE.Gen.Bufio
 import GoSSE.Model.Parser
 import GoSSE.Model.Fields
 /-!
@@ -7,7 +8,8 @@ Ops that validate the translator (`/verif/translate`): the model column runs the
 (`GoSSE/Gen`, regenerated from /repo's source on every run) with fuel `len + 2`; the specification column runs
 the hand-written model. The real code's output (Go column) must equal both.
 
-  GNLI <hex> · GNC <hex> · GSPLIT <atEOF> <hex> · GFP <keep> <bom> <hex> · GSL <hex>
+  GNLI <hex> · GNC <hex> · GSPLIT <atEOF> <hex> · GFP <keep> <bom> <hex> · GSL <hex> ·
+  GSCAN <cap|-> <max|-> <endErr> <errWithLast> <chunks>
 -/
 namespace Driver.GenD
 open GoSSE GoSSE.GoRT GoSSE.Model Driver
@@ -55,6 +57,44 @@ def modelFP (keep bom : Bool) (data : Bytes) : String :=
   let r := go (data.length + 2) f []
   s!"{showFields r.2} | {if r.1.err then "UEOF" else "nil"} | {showBool r.1.started}"
 
+/-! ### `bufio.Scanner` with go-sse's split function: translated source vs hand-written model -/
+
+def showErr (e : Option String) : String :=
+  match e with
+  | none => "nil"
+  | some "verif.errRead" => "READ"
+  | some "ErrTooLong" => "TOOLONG"
+  | some x => "OTHER:" ++ x
+
+def showToks (l : List Bytes) : String := if l.isEmpty then "-" else ",".intercalate (l.map hex)
+
+/-- the translated scanner: `Scan` until it returns false, then `Err` -/
+def genScan (F : Nat) (src : Source) (cfg : Option (Nat × Int)) : GoM String := do
+  let g : Gen.Scanner := { r := { chunks := src.chunks, endErr := src.endErr, errWithLast := src.errWithLast }, split := fun d e => Gen.splitFunc F d e, maxTokenSize := (cfg.map (·.2)).getD 65536, token := none, buf := List.replicate ((cfg.map (·.1)).getD 0) 0, start := 0, end' := 0, err := none, empties := 0, scanCalled := false, done := false }
+  let rec go (n : Nat) (g : Gen.Scanner) (acc : List Bytes) : GoM (Gen.Scanner × List Bytes) :=
+    match n with
+    | 0 => pure (g, acc)
+    | n + 1 => do
+      let r ← Gen.Scanner_Scan F g
+      if r.1 then go n r.2 (acc ++ [r.2.token.getD []]) else pure (r.2, acc)
+  let r ← go (src.size + 4) g []
+  let e ← Gen.Scanner_Err F r.1
+  pure s!"{showToks r.2} | {showErr e.1}"
+
+/-- the hand-written model on the same script -/
+def modelScan (src : Source) (cfg : Option (Nat × Int)) : String :=
+  let rec go (n : Nat) (s : Scanner) (acc : List Bytes) : Scanner × List Bytes :=
+    match n with
+    | 0 => (s, acc)
+    | n + 1 =>
+      match Scanner.scan (s.src.size + s.data.length + 4) s with
+      | (some t, s') => go n s' (acc ++ [t.2])
+      | (none, s') => (s', acc)
+  let r := go (src.size + 4) (mkScanner src cfg) []
+  let e := match r.1.err with
+    | some .read => "READ" | some .tooLong => "TOOLONG" | _ => "nil"
+  s!"{showToks r.2} | {e}"
+
 def handle (op : String) (args : List String) : Option (String × String) :=
   let args := args.filter fun a => !a.startsWith "GO="
   match op, args with
@@ -76,10 +116,16 @@ def handle (op : String) (args : List String) : Option (String × String) :=
   | "GFP", [k, b, h] =>
     let s := unhex h
     some (showM id (genFP (s.length + 3) (boolOf k) (boolOf b) s), modelFP (boolOf k) (boolOf b) s)
+  | "GSCAN", [c, mx, ee, ewl, ch] =>
+    let chunks := (unhexList ch).filter (!·.isEmpty)
+    let src : Source := { chunks := chunks, endErr := boolOf ee, errWithLast := boolOf ewl }
+    let cfg : Option (Nat × Int) := if c == "-" then none else some (c.toNat?.getD 0, (parseInt? mx).getD 0)
+    let total := chunks.foldl (fun n x => n + x.length) 0
+    some (showM id (genScan (total + 70000 + ((cfg.map (·.2.toNat)).getD 0)) src cfg), modelScan src cfg)
   | "GSL", [h] =>
     let s := unhex h
     some (showM showBool (Gen.isSingleLine (s.length + 2) s), showBool (isSingleLine s))
-  | "GNLI", _ | "GNC", _ | "GSPLIT", _ | "GFP", _ | "GSL", _ => some ("bad-args", "bad-args")
+  | "GNLI", _ | "GNC", _ | "GSPLIT", _ | "GFP", _ | "GSL", _ | "GSCAN", _ => some ("bad-args", "bad-args")
   | _, _ => none
 
 end Driver.GenD
